@@ -37,3 +37,9 @@ META["C11"] = dict(
     text=("Generated search (millions of calls) over every matrix entry point with magnitude extremes, w at 0 and at +-2^k, results "
           "at the representability limits; each result compared with exact rational arithmetic in __int128 / long double."),
     note="Trusted: the __int128 reference in props/matrix.cpp. Found and fixed: S7, S8 (known_findings.json).")
+META["C18"] = dict(
+    technique="property-based testing (rapidcheck) under AddressSanitizer: all kernel pairs x boundary-biased scales x phase bits vs. well-formedness oracle",
+    design_ref="§4 C18",
+    text=("Generated search over (kernel pair, scale, subsample bits) per axis with the library built under ASan; the returned block "
+          "is checked for announced length, header, exact phase sums, acceptance by set_filter and constancy of a filtered constant image."),
+    note="Trusted: ASan for out-of-block writes; vf_malloc shim for the allocation size. Found and fixed: S12.")
